@@ -13,7 +13,7 @@ NPROC = str(os.cpu_count() or 4)
 
 CFLAGS = ['-std=gnu99', '-O1', '-g', '-fsanitize=address,undefined', '-fno-sanitize-recover=all',
           '-fno-omit-frame-pointer', '-D_GNU_SOURCE', '-D_FILE_OFFSET_BITS=64', '-DHAS_PIPE2', '-DNOSTDERR',
-          '-DNDEBUG', '-w', '-I' + os.path.join(VERIF, 'harness', 'inc'), '-I' + os.path.join(REPO, 'include')]
+          '-DNDEBUG', '-w', '-I' + os.path.join(VERIF, 'harness', 'inc'), '-I' + os.path.join(REPO, 'include'), '-I' + REPO]
 RUNENV = dict(os.environ, ASAN_OPTIONS='detect_leaks=0:abort_on_error=0:allocator_may_return_null=1',
               UBSAN_OPTIONS='print_stacktrace=0')
 
